@@ -255,6 +255,8 @@ class HistGen:
             ops += ['add_component', 'add_component', 'add_node_service']
         if self.svc_refs(v):
             ops += ['add_interface']
+        if len(self.svc_refs(v)) >= 2:
+            ops += ['peer', 'peer']
         if v.of_class('ConnectionPoint'):
             ops += ['add_link', 'add_link']
         op = r.choice(ops)
@@ -555,6 +557,55 @@ class HistGen:
                 s['pos'] = int(suffix[-1])
         return s
 
+    def svc_if_names(self, v, sv):
+        return [v.nodes[c][2] for c in v.nb(sv[0], 'connects', 'ConnectionPoint')]
+
+    def f_peer(self, v, valid):
+        r = self.rng
+        refs = self.svc_refs(v)
+        pairs = [(x, y) for x in refs for y in refs if x[1][0] != y[1][0]]
+        if not pairs:
+            return None
+        def names(x, y):
+            return x[1][2] + '-' + y[1][2], y[1][2] + '-' + x[1][2]
+        fresh = [(x, y) for (x, y) in pairs if names(x, y)[0] not in self.svc_if_names(v, x[1])
+                 and names(x, y)[1] not in self.svc_if_names(v, y[1]) and len(names(x, y)[0]) + 5 <= 255]
+        done = [(x, y) for (x, y) in pairs if names(x, y)[0] in self.svc_if_names(v, x[1])]
+        longl = [(x, y) for (x, y) in pairs if names(x, y)[0] not in self.svc_if_names(v, x[1])
+                 and names(x, y)[1] not in self.svc_if_names(v, y[1]) and 251 <= len(names(x, y)[0]) <= 255]
+        toolong = [(x, y) for (x, y) in pairs if len(names(x, y)[0]) > 255]
+        if valid:
+            if not fresh:
+                return None
+            x, y = r.choice(fresh)
+            return {'op': 'peer', 'a': x[0], 'b': y[0], 'kw': self.kw()[0] if r.random() < 0.4 else []}
+        faults = ['bad_prop']
+        if done:
+            faults += ['dup'] * 2
+        if fresh:
+            faults += ['late_other_name_taken'] * 3
+        if longl:
+            faults += ['late_link_name_too_long'] * 6
+        if toolong:
+            faults += ['bad_name'] * 2
+        ft = r.choice(faults)
+        if ft == 'bad_prop':
+            x, y = r.choice(fresh or pairs)
+            kw, pos = self.kw(bad=True)
+            return {'op': 'peer', 'a': x[0], 'b': y[0], 'kw': kw, 'pos': pos, 'fault': ft}
+        if ft == 'dup':
+            x, y = r.choice(done)
+        elif ft == 'late_link_name_too_long':
+            x, y = r.choice(longl)
+        elif ft == 'bad_name':
+            x, y = r.choice(toolong)
+        else:
+            x, y = r.choice(fresh)
+            # the other service already has an interface with the name peer() is going to use there
+            self.do({'op': 'add_interface', 'svc': y[0], 'name': names(x, y)[1], 'itype': 'TrunkPort',
+                     'node_id': self.nid('p')}, False)
+        return {'op': 'peer', 'a': x[0], 'b': y[0], 'kw': [], 'fault': ft}
+
     def f_add_switch(self, v, valid):
         r = self.rng
         if valid:
@@ -613,6 +664,8 @@ class HistGen:
             choices += ['remove_node_saving'] * 3
         if v.top_services() and r.random() < 0.2:
             choices += ['remove_service']
+        if len(v.top_services()) >= 2 and r.random() < 0.3:
+            choices += ['peer'] * 2
         c = r.choice(choices)
         if c == 'add_node':
             return [self.s_add_node()]
@@ -636,6 +689,9 @@ class HistGen:
             key = 'k%d' % len(self.steps)
             self.stale.append(key)
             return [{'op': 'save_if', 'ref': ['cp', r.choice(cps)], 'as': key}, {'op': 'remove_node', 'name': n[2]}]
+        if c == 'peer':
+            sp = self.f_peer(v, True)
+            return [sp] if sp else []
         if c == 'remove_service':
             return [{'op': 'remove_service', 'name': r.choice(v.top_services())[2]}]
 
@@ -660,6 +716,12 @@ class HistGen:
                 sp['if_ids'] = [self.nid('ci') for _ in range(mt[3])]
                 sp['if_labels'] = mt[3]
             self.do(sp, False)
+        if self.long_names and not self.sub and r.random() < 0.6:
+            tot = r.choice([251, 252, 253, 254, 255, 256])          # len(A) + 1 + len(B)
+            la = r.randrange(100, 140)
+            for ln in (la, tot - 1 - la):
+                nm = self.fresh_name('s')
+                self.do({'op': 'add_service', 'name': nm + 'S' * (ln - len(nm)), 'nstype': 'L2Bridge', 'ifs': []}, False)
         for _ in range(n_build):
             for s in self.build_step(self.view()):
                 self.do(s, False)
@@ -717,6 +779,7 @@ WITNESS_CASES = {
     'C09_add_component_atomic_refuted': 'component_same_child_ids',
     'C09_add_facility_atomic_refuted': 'facility_late_bad_ifname',
     'C09_add_switch_atomic_refuted': 'switch_late_bad_portlabels',
+    'C09_peer_atomic_refuted': 'peer_other_name_taken',
 }
 
 
